@@ -211,6 +211,20 @@ def apply_core_settings(state, s):
     state.atCommandActions = acts
 
 
+def hook_gcode(cmd):
+    """(gcode, subcode) the way OctoPrint hands them to the queuing hook: the code exactly as it is spelled in the command
+    ("G01" stays "G01", the sub-code is text), "T" for tool changes.  (OctoPrint reports no code at all for a lower-case
+    command letter; the harness reports the upper-case letter there, which only widens what the handlers are given.)"""
+    from .refprinter import CODE
+    m = CODE.match(cmd.split(";", 1)[0])
+    if not m:
+        return None, None
+    letter = m.group(1).upper()
+    if letter == "T":
+        return "T", None
+    return letter + m.group(2), m.group(3)
+
+
 def setting_bool(v):
     """The value of an on/off setting as OctoPrint's boolean reader defines it (strings and numbers from a hand-edited file)."""
     if isinstance(v, bool):
@@ -278,10 +292,9 @@ class Core(object):
 
     def gcode(self, cmd):
         """Returns (raw result, normalised output list, arc samples or None)."""
-        code, sub, _ = tokenize(cmd)
-        if code is None:
+        gc, sub = hook_gcode(cmd)
+        if gc is None:
             return None, [cmd], None
-        gc = "T" if code[0] == "T" else code
         n0 = len(self.arc.log)
         raw = self.handlers.handleGcode(cmd, gc, sub)
         samples = None
@@ -439,8 +452,7 @@ class Plugin(object):
             return self.unit.on_api_get(None).get_json()
 
     def gcode(self, cmd):
-        code, sub, _ = tokenize(cmd)
-        gc = None if code is None else ("T" if code[0] == "T" else code)
+        gc, sub = hook_gcode(cmd)
         n0 = len(self.arc.log)
         raw = self.unit.handleGcodeQueuing(self.comm, "queuing", cmd, None, gc, sub)
         samples = list(self.arc.log[-1][2]) if len(self.arc.log) > n0 else None
